@@ -1,3 +1,4 @@
+import Pm.Signal
 import Pm.Dev2Fd
 import Pm.Dev2Timer
 /-! # C20 — no resource leaks: descriptors and coprocess children
@@ -333,6 +334,42 @@ theorem C20_shutdown_needs_childInv_counterexample :
     kidRun (exPipeConnecting.cpid.toList, []) (tdDev exPipeConnecting) = some ([5000], []) := by decide
 
 end shutdown
+
+
+/-! ## the termination signal (`powermand.c`: exit pipe, `_exit_handler`, the `break` in `_select_loop`)
+
+`Pm/Signal.lean`.  The correspondence harness runs the real `main()` and `_select_loop()`: the signal is raised while the daemon
+sleeps in `xpoll`, its real handler writes to the real exit pipe, and what follows is compared with `signalPass`. -/
+section signal
+open Pm Pm.Daemon Pm.Dev2.Timer
+
+/-- **A termination signal ends the daemon in the pass in which it arrives, whatever else is ready.**  `signalPass w p` is what
+    the daemon does when `poll` returns with the exit pipe readable: it is the registration of the pass followed by the
+    shutdown `teardown w` of the world *as it was when the daemon went to sleep* — for every `p` (connections waiting to be
+    accepted, client lines, device bytes, expired timers, hang-ups): none of it is read, no request line is parsed, no action
+    is started or completed, nothing is written.  So `C20_shutdown`, `C20_shutdown_log` and `C20_shutdown_device` describe
+    exactly which descriptors are closed and which children are reaped, at any pass boundary of any history. -/
+theorem C20_signal (w : W) (p q : PassIn) :
+    signalPass w p = prePollLines w ++ teardown w ∧ signalPass w p = signalPass w q :=
+  ⟨rfl, rfl⟩
+
+/-- the first lines of every ordinary pass are the same registration: `signalPass` and `daemonPass` agree on what `poll` is
+    asked, they differ in what happens after it returns -/
+theorem C20_signal_same_registration (w : W) (p : PassIn) :
+    ∃ rest, (daemonPass w p).2 = prePollLines w ++ rest := by
+  unfold daemonPass prePollLines
+  dsimp only
+  split <;> (simp only [List.append_assoc]; exact ⟨_, rfl⟩)
+
+/-- non-vacuity: the shutdown world of `C20_shutdown` asleep with a client line and a device answer ready -/
+example (p : PassIn) : signalPass tdWorld p =
+    prePollLines tdWorld ++ ["Y close 1000", "Y close 2000", "Y kill 5000 15", "Y waitpid 5000", "Y close 3000"] := by
+  have h : teardown tdWorld = ["Y close 1000", "Y close 2000", "Y kill 5000 15", "Y waitpid 5000", "Y close 3000"] := by
+    decide +kernel
+  show prePollLines tdWorld ++ teardown tdWorld = _
+  rw [h]
+
+end signal
 
 /-! ## the daemon-level descriptor ledger, client part
 
